@@ -10,9 +10,42 @@ def outToJson : Except PErr (List Seg) → Json
   | .error (.ypath c) => Json.mkObj [("ypath", Json.num (Lean.JsonNumber.fromNat c))]
   | .error (.crash c) => Json.mkObj [("crash", Json.num (Lean.JsonNumber.fromNat c))]
 
+def segIdClass (s : Str) : String :=
+  if s = [] then "e"
+  else if s = ['-'] then "-"
+  else if (pyInt? s).isSome then "i"
+  else if s.contains ':' then ":"
+  else if (keywordOf? s).isSome then "k"
+  else if s.contains '*' then "*"
+  else if s.head? = some '\'' ∨ s.head? = some '"' then "q"
+  else "o"
+
+/-- Abstract view of the parser state after consuming a text (used by the harness to build a
+state cover of the model: one representative text per abstract state). -/
+def abstractState (fslash strip : Bool) (t : Str) : String :=
+  let cs := normOriginal t
+  let sep := if fslash then '/' else '.'
+  let firstAnchorPos := if fslash ∧ cs.length > 1 then 1 else 0
+  let st0 : PState := { seekingAnchorMark := cs[firstAnchorPos]? = some '&' }
+  match run sep strip st0 cs with
+  | .error _ => "ERR"
+  | .ok st =>
+    let b := fun (x : Bool) => if x then "1" else "0"
+    String.intercalate "|" [
+      String.ofList (st.stack.take 3), toString (min st.stack.length 4),
+      toString (st.count - st.stack.length), b st.escapeNext,
+      (match st.segType with | some t => segTypeName t | none => "-"),
+      b st.searchInverted, (match st.searchMethod with | some m => methodName m | none => "-"),
+      b st.searchKeyword.isSome, b st.seekingRegexDelim, b st.capturingRegex,
+      toString (min st.collectorLevel 2), collOpName st.collectorOp, b st.seekingCollectorOp,
+      (match st.nextCharMustBe with | some c => String.singleton c | none => "-"),
+      b st.seekingAnchorMark, segIdClass st.segId, b (st.searchAttr = []), b (st.segs = [])]
+
 /-- `{"op":"parse","t":text,"sep":"auto"|"dot"|"fslash"}` ↦ escaped and unescaped parse outcomes. -/
 def handle (j : Json) : Except String Json := do
   let t := s2l (← getStr j "t")
+  if (getStr j "op").toOption = some "C14.state" then
+    return Json.mkObj [("s", Json.str (abstractState (inferFslash t) true t))]
   let sep := (getStr j "sep").toOption.getD "auto"
   let f := fun strip => match sep with
     | "dot" => parseWith false strip t
